@@ -100,6 +100,10 @@ def evalBv (st : DState) (name : String) (t : List String) : Eval :=
   match t with
   | "from_raw" :: len :: ws => let len := num len; let ws := ws.map num
     put ⟨BitVector.ofRaw (rawFromWords len ws), bitsFromWords len ws⟩ "bv.from_raw"
+  | ["ref", bits] =>
+    (match st.bvs[name]? with
+     | some o => { st := { st with bvs := st.bvs.insert name ⟨o.m, if bits == "-" then [] else bits.toList.map (· == '1')⟩ }, model := "ok", spec := some "ok" }
+     | none => { st := st, model := "panic:no-object" })
   | ["from_bits"] => put ⟨BitVector.ofRaw RawVec.empty, []⟩
   | ["from_bits", s] => let B := s.toList.map (· == '1')
     put ⟨BitVector.ofRaw (RawVec.ofBits B), B⟩ "bv.from_bits"
@@ -154,7 +158,7 @@ where
         res (firstOf .ident m b (b.predecessorQ m x)) (some (rOptPair (predSpec B x))) "bv.pred"
       | ["succ", x] => let x := num x
         res (firstOf .ident m b (b.successorQ m x)) (some (rOptPair (succSpec B x))) "bv.succ"
-      | ["ser"] => res (rWords (bitVectorC.ser b)) none "bv.ser"
+      | ["doc"] | ["ser"] => res (rWords (bitVectorC.ser b)) none "bv.ser"
       | "it" :: rest =>
         let (pre, calls) := splitColon rest
         (match pre with
